@@ -134,8 +134,10 @@ CATALOGUE = [
     ("C20", "c20-no-wire", EP, "                self.signal_graph.add_sink(signal_id, anchor_id)\n", "", 1, "fire", "C20-R2"),
     ("C20", "c20-label-key", EP, 'debug_info["variable"] = declared_name', 'debug_info["var"] = declared_name', 1, "fire", "C20-R3"),
     # ---- rules added after the third wave of seeds ----
-    ("C10", "c10-fold-or1", OPT, "                            output_val = self._get_const_value(op.output_value, const_map)\n                            if output_val is None:\n                                output_val = 1  # Default output value\n",
-     "                            output_val = self._get_const_value(op.output_value, const_map) or 1\n", 1, "fire", "C10-R9"),
+    ("C10", "c10-fold-or1", OPT, "                            output_val = self._get_const_value(op.output_value, const_map)\n                            if folded and output_val is None:\n",
+     "                            output_val = self._get_const_value(op.output_value, const_map) or 1\n                            if folded and output_val is None:\n", 1, "fire", "C10-R9"),
+    ("C10", "c10-fold-default1", OPT, "                            if folded and output_val is None:\n                                # The comparison holds but the forwarded value is only\n                                # known at run time: the decider has to stay\n                                continue\n",
+     "                            if output_val is None:\n                                output_val = 1\n", 1, "fire", "C10-R9"),
     ("C10", "c10-fold-benign-ifexp", OPT, "                            final_value = output_val if folded else 0\n", "                            final_value = 0\n                            if folded:\n                                final_value = output_val\n", 1, "silent", ""),
     ("C18", "c18-bbox-inf", PP, "        user_min_x, user_min_y = 0.0, 0.0\n", "        user_min_x, user_min_y = math.inf, math.inf\n", 1, "fire", "min-accumulator"),
     ("C18", "c18-bbox-benign-int", PP, "        user_max_x, user_max_y = 0.0, 0.0\n", "        user_max_x, user_max_y = 0, 0\n", 1, "silent", ""),
